@@ -33,8 +33,11 @@ for f in sorted(os.listdir(rd)) if os.path.isdir(rd) else []:
     if f.endswith(".json"):
         spec = json.load(open(os.path.join(rd, f)))
         src = open(os.path.join(repo, spec["file"])).read()
+        # forbid patterns look at the code only: comments are blanked, string literals kept
+        code = re.sub(r'"(?:\\.|[^"\\\n])*"|`[^`]*`|\'(?:\\.|[^\'\\\n])*\'|//[^\n]*|/\*.*?\*/',
+                      lambda m: m.group(0) if m.group(0)[0] in "\"`'" else " ", src, flags=re.S)
         for rx in spec.get("forbid", []):
-            m = re.search(rx, src)
+            m = re.search(rx, code)
             if m:
                 sys.exit("rewrite %s: %s now contains %r (forbidden pattern %r): the seam does not cover it" % (f, spec["file"], m.group(0), rx))
         for old, new, cnt in spec["subst"]:
